@@ -365,9 +365,16 @@ class PDFStandardSecurityHandler:
         self.init()
 
     def init(self) -> None:
-        self.init_params()
+        try:
+            self.init_params()
+        except KeyError as e:
+            error_msg = f"Entry {e} is missing: param={self.param!r}"
+            raise PDFEncryptionError(error_msg)
         if self.r not in self.supported_revisions:
             error_msg = "Unsupported revision: param=%r" % self.param
+            raise PDFEncryptionError(error_msg)
+        if self.r >= 3 and self.length < 8:
+            error_msg = "Unsupported key length: param=%r" % self.param
             raise PDFEncryptionError(error_msg)
         self.init_key()
 
@@ -518,7 +525,7 @@ class PDFStandardSecurityHandlerV4(PDFStandardSecurityHandler):
             raise PDFEncryptionError(error_msg)
         self.cfm = {}
         for k, v in self.cf.items():
-            f = self.get_cfm(literal_name(v["CFM"]))
+            f = self.get_cfm(literal_name(dict_value(v).get("CFM")))
             if f is None:
                 error_msg = "Unknown crypt filter method: param=%r" % self.param
                 raise PDFEncryptionError(error_msg)
@@ -565,6 +572,9 @@ class PDFStandardSecurityHandlerV4(PDFStandardSecurityHandler):
         )
         hash = md5(key)
         key = hash.digest()[: min(len(key), 16)]
+        if len(data) < 16:
+            # not even a complete initialization vector: nothing to decrypt
+            return b""
         initialization_vector = data[:16]
         ciphertext = data[16:]
         cipher = Cipher(
@@ -693,6 +703,9 @@ class PDFStandardSecurityHandlerV5(PDFStandardSecurityHandlerV4):
         return encryptor.update(data) + encryptor.finalize()  # type: ignore
 
     def decrypt_aes256(self, objid: int, genno: int, data: bytes) -> bytes:
+        if len(data) < 16:
+            # not even a complete initialization vector: nothing to decrypt
+            return b""
         initialization_vector = data[:16]
         ciphertext = data[16:]
         assert self.key is not None
@@ -764,8 +777,8 @@ class PDFDocument:
                 continue
             # If there's an encryption info, remember it.
             if "Encrypt" in trailer:
-                if "ID" in trailer:
-                    id_value = list_value(trailer["ID"])
+                if "ID" in trailer and list_value(trailer["ID"]):
+                    id_value = [str_value(x) for x in list_value(trailer["ID"])]
                 else:
                     # Some documents may not have a /ID, use two empty
                     # byte strings instead. Solves
